@@ -514,6 +514,44 @@ fn classify(c: &SqlCase, _ev: &Ev, reference: &crate::refsql::RefAnswer, cfg: &E
     None
 }
 
+/// Every configuration of the case, then the swapped statement in memory, all
+/// against the one `refsql` answer. `Ok((verdict, configurations answered))`,
+/// or `Err(verdict)` when the reference evaluator declined the statement.
+fn judge_with_swapped(case: &JoinCase, obs: &mut Obs) -> Result<(Verdict, usize), Verdict> {
+    let c = &case.sql_case;
+    let out = judge_multi(c, &case.cfgs, obs, 1e-9, classify, false);
+    let Some(reference) = &out.reference else { return Err(out.verdict) };
+    let mut verdict = out.verdict.clone();
+    let mut answered = out.answered();
+    // metamorphic variant, in-memory
+    if let Some(sq) = swapped(&c.query) {
+        let sc = SqlCase { tables: c.tables.clone(), query: sq, cuts: c.cuts.clone(), features: c.features.clone() };
+        let sql = sc.query.sql();
+        let cfg = EngineCfg::mem("swapped");
+        let run = run_cfg(&sc, &cfg, &sql, false);
+        match &run.rows {
+            Ok(got) => {
+                answered += 1;
+                obs.label("engine_ok[swapped]");
+                if let Err(msg) = crate::refsql::compare_answer(reference, got, 1e-9) {
+                    let full = format!("[swapped statement] {}\n sql: {}\n original: {}\n tables: {}", msg, sql, c.query.sql(), crate::sqlcheck::fmt_tables(&c.tables));
+                    match classify(&sc, &out.events, reference, &cfg, &run, &msg) {
+                        Some(id) if !matches!(verdict, Verdict::Fail(_)) => verdict = Verdict::Known { id: id.into(), msg: full },
+                        Some(_) => {}
+                        None => {
+                            if !matches!(verdict, Verdict::Fail(_)) {
+                                verdict = Verdict::Fail(full)
+                            }
+                        }
+                    }
+                }
+            }
+            Err(e) => obs.label(format!("engine_error[swapped]:{}", crate::sqlcheck::short_err(e))),
+        }
+    }
+    Ok((verdict, answered))
+}
+
 pub struct JoinCheck {
     name: &'static str,
     ntables: usize,
@@ -548,36 +586,10 @@ impl Check for JoinCheck {
     }
     fn test(&self, case: &JoinCase, obs: &mut Obs) -> Verdict {
         let c = &case.sql_case;
-        let out = judge_multi(c, &case.cfgs, obs, 1e-9, classify, false);
-        let Some(reference) = &out.reference else { return out.verdict };
-        let mut verdict = out.verdict.clone();
-        let mut answered = out.answered();
-        // metamorphic variant, in-memory
-        if let Some(sq) = swapped(&c.query) {
-            let sc = SqlCase { tables: c.tables.clone(), query: sq, cuts: c.cuts.clone(), features: c.features.clone() };
-            let sql = sc.query.sql();
-            let cfg = EngineCfg::mem("swapped");
-            let run = run_cfg(&sc, &cfg, &sql, false);
-            match &run.rows {
-                Ok(got) => {
-                    answered += 1;
-                    obs.label("engine_ok[swapped]");
-                    if let Err(msg) = crate::refsql::compare_answer(reference, got, 1e-9) {
-                        let full = format!("[swapped statement] {}\n sql: {}\n original: {}\n tables: {}", msg, sql, c.query.sql(), crate::sqlcheck::fmt_tables(&c.tables));
-                        match classify(&sc, &out.events, reference, &cfg, &run, &msg) {
-                            Some(id) if !matches!(verdict, Verdict::Fail(_)) => verdict = Verdict::Known { id: id.into(), msg: full },
-                            Some(_) => {}
-                            None => {
-                                if !matches!(verdict, Verdict::Fail(_)) {
-                                    verdict = Verdict::Fail(full)
-                                }
-                            }
-                        }
-                    }
-                }
-                Err(e) => obs.label(format!("engine_error[swapped]:{}", crate::sqlcheck::short_err(e))),
-            }
-        }
+        let (verdict, answered) = match judge_with_swapped(case, obs) {
+            Ok(v) => v,
+            Err(v) => return v,
+        };
         // non-triviality
         let mut facts = vec![];
         if let SetExpr::Select(sel) = &c.query.body {
@@ -607,6 +619,258 @@ impl Check for JoinCheck {
     }
 }
 
+// ---------------------------------------------------------------------------
+// join_batches: inputs that arrive as MANY record batches
+// ---------------------------------------------------------------------------
+//
+// `probe_vectorized` (hash_join.rs) has separate code for a probe partition of
+// >= 32 batches (MIN_BATCHES_FOR_PARALLEL): INNER and LEFT probe whole batches
+// on rayon threads, each with its own pair filtering, match bits and
+// NULL-extension; every other kind walks the batches sequentially with state
+// carried across them. join2/join3 cut a table into at most 3 batches, so none
+// of that ran. Here one table (either side, sometimes both) is a memory table
+// of 34..=64 batches of 0..=3 rows (65–120 rows, one scan partition below 1000
+// rows, so one probe partition sees them all) and the other one is small
+// (0..=40 rows): `left > 2 x right` (build = right for LEFT/SEMI/ANTI, the
+// left table is probed) and its opposite both occur, for every join kind, with
+// and without a residual ON predicate. Same reference, same judging, plus the
+// same tables as ONE batch each ("mem1") as a control.
+
+/// minimum batch count of the engine's batch-parallel probe
+const MANY: usize = 32;
+
+/// rows of one table dealt into `nbatches` batches of 0..=3 rows → (rows, cut points)
+fn batched_rows(vals: Vec<BoxedStrategy<Value>>, nbatches: std::ops::RangeInclusive<usize>) -> BoxedStrategy<(Vec<Vec<Value>>, Vec<usize>)> {
+    let batch = prop_oneof![1 => Just(0usize), 6 => Just(1usize), 6 => Just(2usize), 5 => Just(3usize)].prop_flat_map(move |n| proptest::collection::vec(vals.clone(), n..=n));
+    proptest::collection::vec(batch, nbatches)
+        .prop_map(|batches| {
+            let mut cuts = vec![];
+            let mut rows = vec![];
+            let nb = batches.len();
+            for (i, b) in batches.into_iter().enumerate() {
+                rows.extend(b);
+                if i + 1 < nb {
+                    cuts.push(rows.len());
+                }
+            }
+            (rows, cuts)
+        })
+        .boxed()
+}
+
+/// r and s sharing k1..kK; `big` (0 = r = left input, 1 = s = right input) comes in >= 34 batches,
+/// the other table is small with 0..=2 cuts, or (1 in 5) many-batch too
+fn batched_tables_strategy() -> BoxedStrategy<(Vec<Table>, Vec<Vec<usize>>)> {
+    let spec = (proptest::sample::select(vec![0u32, 20, 40]), proptest::sample::select(PAY_TYPES.to_vec()));
+    (
+        proptest::collection::vec(proptest::sample::select(KEY_TYPES.to_vec()), 1..=2),
+        proptest::collection::vec(spec, 2),
+        proptest::option::weighted(0.15, 0usize..2),
+        0usize..2,
+        // the other table: size class, or many batches as well
+        proptest::sample::select(vec![0usize, 1, 2, 2, 3, 3, 3, 4, 4, 9]),
+    )
+        .prop_flat_map(|(key_types, specs, mixed, big, other)| {
+            let mut parts: Vec<BoxedStrategy<(Vec<Vec<Value>>, Vec<usize>)>> = vec![];
+            let mut schemas = vec![];
+            for (ti, (key_null_pct, q_ty)) in specs.iter().enumerate() {
+                let mut cols: Vec<Column> = vec![];
+                let mut vals: Vec<BoxedStrategy<Value>> = vec![];
+                for (ki, kt) in key_types.iter().enumerate() {
+                    let ty = match (mixed == Some(ti), kt) {
+                        (true, ColType::Int) => ColType::Int32,
+                        (true, ColType::Int32) => ColType::Int,
+                        _ => *kt,
+                    };
+                    cols.push(Column { name: format!("k{}", ki + 1), ty });
+                    vals.push(small_value(ty, *key_null_pct));
+                }
+                cols.push(Column { name: "p".into(), ty: ColType::Int });
+                vals.push(small_value(ColType::Int, 15));
+                cols.push(Column { name: "q".into(), ty: *q_ty });
+                vals.push(small_value(*q_ty, 20));
+                schemas.push(cols);
+                parts.push(if ti == big {
+                    batched_rows(vals, 34..=64)
+                } else if other == 9 {
+                    batched_rows(vals, 32..=40)
+                } else {
+                    (proptest::collection::vec(vals, size_range(other)), proptest::collection::vec(0usize..=40, 0..3)).boxed()
+                });
+            }
+            parts.prop_map(move |ps| {
+                let mut tables = vec![];
+                let mut cuts = vec![];
+                for (ti, (rows, c)) in ps.into_iter().enumerate() {
+                    tables.push(Table { name: TNAMES[ti].to_string(), cols: schemas[ti].clone(), rows });
+                    cuts.push(c);
+                }
+                (tables, cuts)
+            })
+        })
+        .boxed()
+}
+
+const BATCH_KINDS: [JoinKind; 8] = [JoinKind::Inner, JoinKind::Left, JoinKind::Left, JoinKind::Right, JoinKind::Right, JoinKind::Full, JoinKind::Semi, JoinKind::Anti];
+
+fn build_batched(tables: Vec<Table>, cuts: Vec<Vec<usize>>, tape: Vec<u16>) -> JoinCase {
+    let mut t = Tape::new(tape);
+    let nkeys = tables[0].cols.iter().filter(|c| c.name.starts_with('k')).count();
+    let rels: Vec<RelIn> = (0..2).map(|i| RelIn { alias: format!("t{}", i + 1), t: &tables[i] }).collect();
+    let base = |i: usize| From::Table { name: tables[i].name.clone(), alias: Some(format!("t{}", i + 1)) };
+    let mut feats: Vec<String> = vec![];
+    let kind = BATCH_KINDS[t.pick(BATCH_KINDS.len())];
+    feats.push(kind_feat(kind).into());
+    let on = on_cond(&mut t, nkeys, &rels[0], &rels[1], &mut feats, 60);
+    let visible: Vec<usize> = if matches!(kind, JoinKind::Semi | JoinKind::Anti) { vec![0] } else { vec![0, 1] };
+    let from = From::Join { l: Box::new(base(0)), r: Box::new(base(1)), kind, on: Some(on) };
+    let mut where_ = None;
+    if t.chance(15) {
+        feats.push("where".into());
+        let vi = visible[t.pick(visible.len())];
+        where_ = Some(side_pred(&mut t, &rels[vi]));
+    }
+    let mut all: Vec<Expr> = vec![];
+    for &vi in &visible {
+        for c in &tables[vi].cols {
+            all.push(col(&rels[vi], &c.name));
+        }
+    }
+    let subset = t.chance(40);
+    let mut items: Vec<Item> = vec![];
+    for e in all.iter() {
+        if !subset || t.chance(45) {
+            items.push(Item::Expr(e.clone(), Some(format!("c{}", items.len() + 1))));
+        }
+    }
+    if items.is_empty() {
+        items.push(Item::Expr(all[t.pick(all.len())].clone(), Some("c1".into())));
+    }
+    if subset {
+        feats.push("subset_items".into());
+    }
+    if tables[0].cols.iter().zip(&tables[1].cols).any(|(a, b)| a.name.starts_with('k') && a.ty != b.ty) {
+        feats.push("mixed_width_keys".into());
+    }
+    let sel = Select { distinct: false, items, from: vec![from], where_, group: Group::None, having: None };
+    // the batch layout under test, with and without morsel execution; one batch per table as the control
+    let cfgs = vec![EngineCfg::mem("mem"), EngineCfg::mem("nomorsel").no_morsel(), EngineCfg::mem("mem1").single()];
+    JoinCase { sql_case: SqlCase { tables, query: Query::select(sel), cuts, features: feats }, cfgs }
+}
+
+/// non-empty batches table `i` is registered as
+fn nonempty_batches(c: &SqlCase, i: usize) -> usize {
+    let n = c.tables[i].rows.len();
+    let mut pts: Vec<usize> = c.cuts.get(i).map(|v| v.iter().map(|x| (*x).min(n)).collect()).unwrap_or_default();
+    pts.sort();
+    pts.push(n);
+    let (mut lo, mut k) = (0, 0);
+    for p in pts {
+        if p > lo {
+            k += 1;
+        }
+        lo = p;
+    }
+    k
+}
+
+pub struct BatchedJoinCheck;
+
+impl Check for BatchedJoinCheck {
+    type Case = JoinCase;
+    fn name(&self) -> &'static str {
+        "join_batches"
+    }
+    fn rule(&self) -> &'static str {
+        "at least two configurations answered, the table the hash join is expected to probe (the left one of a LEFT/SEMI/ANTI join when it has more than twice the rows of the right one, else the right one) is registered as >= 32 non-empty batches, a key column holds a NULL, a row of the preserved side (either side for inner/full) has no partner, and a residual ON predicate, when present, rejects at least one pair whose equi-keys match"
+    }
+    fn cases(&self, tier: Tier) -> u32 {
+        tier.pick(700, 40_000)
+    }
+    fn max_shrink_iters(&self) -> u32 {
+        // a failing case keeps its >= 32 batches, so shrinking has a floor: spend little on it
+        200
+    }
+    fn strategy(&self, _tier: Tier) -> BoxedStrategy<JoinCase> {
+        (batched_tables_strategy(), proptest::collection::vec(any::<u16>(), 20..60)).prop_map(|((tables, cuts), tape)| build_batched(tables, cuts, tape)).boxed()
+    }
+    fn test(&self, case: &JoinCase, obs: &mut Obs) -> Verdict {
+        let c = &case.sql_case;
+        let (verdict, answered) = match judge_with_swapped(case, obs) {
+            Ok(v) => v,
+            Err(v) => return v,
+        };
+        let Some(From::Join { l, r, kind, on: Some(on) }) = top_from(c) else { return verdict };
+        let (nl, nr) = (c.tables[0].rows.len(), c.tables[1].rows.len());
+        let (bl, br) = (nonempty_batches(c, 0), nonempty_batches(c, 1));
+        // the batch layout is the point of this check: say it in the report
+        let verdict = match verdict {
+            Verdict::Fail(m) => Verdict::Fail(format!("{}\n batch layout (configurations mem, nomorsel, swapped): r = {} rows in {} batches ({} non-empty), s = {} rows in {} batches ({} non-empty); mem1 = one batch per table", m, nl, c.cuts[0].len() + 1, bl, nr, c.cuts[1].len() + 1, br)),
+            v => v,
+        };
+        // the planner's rule (planner.rs, build_right_for_left); a WHERE or the optimizer may shift
+        // the estimates, so this is a label about the input class, never part of a verdict
+        let probe_left = matches!(kind, JoinKind::Left | JoinKind::Semi | JoinKind::Anti) && nl > 2 * nr;
+        let probe_batches = if probe_left { bl } else { br };
+        obs.label(if probe_left { "expected_probe:left" } else { "expected_probe:right" });
+        obs.label(if nl > 2 * nr { "size:left>2xright" } else if nr > 2 * nl { "size:right>2xleft" } else { "size:similar" });
+        if bl >= MANY {
+            obs.label("left_batches>=32");
+        }
+        if br >= MANY {
+            obs.label("right_batches>=32");
+        }
+        if nl == 0 || nr == 0 {
+            obs.label("empty_side");
+        }
+        // facts, all through the reference evaluator
+        let (mut equi, mut other) = (vec![], vec![]);
+        split_on(on, &mut equi, &mut other);
+        let equi_on = equi.iter().cloned().reduce(Expr::and);
+        let residual = !other.is_empty();
+        let anti = |a: &From, b: &From, cond: &Expr| count(&c.tables, From::Join { l: Box::new(a.clone()), r: Box::new(b.clone()), kind: JoinKind::Anti, on: Some(cond.clone()) }, None).unwrap_or(0);
+        let inner = |cond: &Expr| count(&c.tables, From::Join { l: l.clone(), r: r.clone(), kind: JoinKind::Inner, on: Some(cond.clone()) }, None).unwrap_or(0);
+        let sides: Vec<(&From, &From)> = match kind {
+            JoinKind::Left | JoinKind::Semi | JoinKind::Anti => vec![(&**l, &**r)],
+            JoinKind::Right => vec![(&**r, &**l)],
+            _ => vec![(&**l, &**r), (&**r, &**l)],
+        };
+        let unmatched = sides.iter().any(|(a, b)| anti(a, b, on) > 0);
+        let (mut rejects, mut all_rejected) = (false, false);
+        if let (true, Some(eq)) = (residual, &equi_on) {
+            rejects = inner(eq) > inner(on);
+            // a preserved-side row that has equi-key candidates, none of which passes the residual
+            all_rejected = sides.iter().any(|(a, b)| anti(a, b, on) > anti(a, b, eq));
+        }
+        let nk = null_key(&c.tables);
+        if nk {
+            obs.label("null_key");
+        }
+        if unmatched {
+            obs.label("unmatched_preserved_row");
+        }
+        if rejects {
+            obs.label("residual_rejects_matching_pair");
+        }
+        if all_rejected {
+            obs.label("preserved_row_all_candidates_rejected");
+        }
+        if probe_batches >= MANY {
+            obs.label("probe_batches>=32");
+            obs.label(format!("probe_batches>=32:{}", kind_feat(*kind)));
+            if residual {
+                obs.label("probe_batches>=32+residual");
+                obs.label(format!("probe_batches>=32+residual:{}", kind_feat(*kind)));
+            }
+            if all_rejected {
+                obs.label("probe_batches>=32+all_candidates_rejected");
+            }
+        }
+        obs.nontrivial(answered >= 2 && probe_batches >= MANY && nk && unmatched && (!residual || equi_on.is_none() || rejects));
+        verdict
+    }
+}
+
 pub fn property() -> Property {
     Property {
         id: "C22",
@@ -620,6 +884,7 @@ pub fn property() -> Property {
         checks: vec![
             Box::new(JoinCheck { name: "join2", ntables: 2, quick: 1500, thorough: 80_000 }),
             Box::new(JoinCheck { name: "join3", ntables: 3, quick: 1000, thorough: 50_000 }),
+            Box::new(BatchedJoinCheck),
         ],
     }
 }
